@@ -8,7 +8,7 @@ COQ_EXTRACT = "Extract_C03.v"
 LEVEL = "proof"
 RULE = ("cases = explicit tree automata over {a/0,b/0,g/1,f/2}: corpus, the complete slice of automata with <=2 states and "
         "<=3 rules (2788, every final set), a targeted family (|reachable| = |rule owners| with different sets, finals without "
-        "rules, unproductive children, no finals), histories (the three calls repeated on objects derived from earlier operands and results: selective copies with other final states, final states replaced in place, results trimmed again) and random automata up to 5 states / 10 rules; a case is non-trivial when "
+        "rules, unproductive children, no finals, rules of arity 17-70 with an unproductive child at any position), histories (the three calls repeated on objects derived from earlier operands and results: selective copies with other final states, final states replaced in place, results trimmed again) and random automata up to 5 states / 10 rules; a case is non-trivial when "
         "the automaton has a non-empty language and at least one useless or unreachable state or rule (distinct by rule/final sets)")
 TRUSTED_BASE = [
     "Coq 8.16.1 kernel (coqc, full .vo build); vm_compute only in the *_refuted witness and Examples; no native_compute",
@@ -41,6 +41,21 @@ def targeted(rng):
         n = rng.randint(2, 6)
         rules = [(0, 0, ())] + [(2, i + 1, (i,)) for i in range(n)] + [(3, rng.randrange(n + 1), (rng.randrange(n + 2), rng.randrange(n + 2)))]
         out.append(gen.TA([rng.randrange(n + 2)], rules))
+    # wide rules (arity around the word sizes 32 and 64): one unproductive child at any position must keep the rule from firing
+    for w in (17, 31, 32, 33, 34, 40, 63, 64, 65, 70):
+        for _ in range(6):
+            ch = [1] * w
+            rules = [(0, 1, ())]
+            if rng.random() < 0.5:
+                rules.append((2, 3, (1,)))
+                for i in range(w):
+                    if rng.random() < 0.3: ch[i] = 3
+            k = rng.choice([0, 1, 1, 1, 2])
+            for _ in range(k): ch[rng.choice([0, w - 1, w - 1, rng.randrange(w), min(w - 1, 32), min(w - 1, 33)])] = 2      # state 2 owns no rule
+            fin = [0] + ([2] if rng.random() < 0.2 else [])
+            rules.append((200 + w, 0, tuple(ch)))
+            if rng.random() < 0.3: rules.append((0, 0, ()))
+            out.append(gen.TA(fin, rules))
     return out
 
 def cases(rng, tier):
